@@ -8,7 +8,7 @@ RULE = ('storage histories (deletes into already-indexed blobs = stale indexes, 
         'it); between two sessions each index file gets one damage pattern: removed / truncated at a length (every '
         'section boundary +-2, inside header, inside the filter section, inside the tree, inside the leaves, random) / '
         'header only / written-flag cleared / recorded blob size changed; reopen eager and lazy, optionally off-loading the re-read bloom filters; every query + counts '
-        'must equal the answers before the close; next_blob_id must stay above all ids; debug and release builds; '
+        'must equal the answers before the close; index-open stream: an index file written through hook H2 is cut at a length / has one header or tree-meta field overwritten and is opened again, outcome class = Coq index_open; next_blob_id must stay above all ids; debug and release builds; '
         'distinct by (cfg, damage class, outcome class)')
 ASSUMPTIONS = ['bit rot inside an index file that keeps header, meta and root parseable is not in the property\'s list']
 
@@ -68,9 +68,51 @@ def gen_script(rng):
     return '\n'.join(L) + '\n'
 
 
+def gen_index_open_script(rng):
+    """The crate-private index (hook H2) writes an index file; the file is cut at a chosen length or one header
+    field is overwritten; then it is opened as Blob::from_file opens it. Outcome (ok / error class) compared with
+    the Coq model Index/Open.v index_open on the model's own bytes of that file."""
+    K = rng.choice([1, 4, 8, 32])
+    n = rng.choice([1, 2, 3, 7, 40, 200])
+    L = ['cfg K=%d' % K, 'idx new 0 none']
+    off = 20
+    for i in range(n):
+        key = (2 * (i % (256 if K == 1 else 10**6)) % (256 ** K)).to_bytes(K, 'big').hex()
+        L.append('idx push 0 %s %d 0 8 5 %d' % (key, rng.choice([5, 7, 9]), off))
+        off += 57 + K + 13
+    bsize = off
+    L.append('idx dump 0 %d' % bsize)
+    L.append('idx filehex 0')
+    L.append('idx drop 0')
+    meta = 8 + (8 + K) * 2 + 1 + 56          # range filter raw + empty bloom raw
+    tree_meta = 83 + meta
+    tree_off = tree_meta + 16
+    total_guess = tree_off + 4096 + n * (57 + K)
+    kind = rng.choice(['cut', 'cut', 'cut', 'field', 'bsize', 'none'])
+    if kind == 'cut':
+        cls = rng.choice(['hdr', 'meta', 'treemeta', 'tree', 'leaves', 'leaves', 'lastbyte', 'rand'])
+        if cls == 'hdr': m = rng.randrange(0, 83)
+        elif cls == 'meta': m = rng.randrange(83, tree_meta)
+        elif cls == 'treemeta': m = rng.choice([tree_meta, tree_meta + 1, tree_meta + 8, tree_meta + 15, tree_off, tree_off + 1])
+        elif cls == 'tree': m = rng.randrange(tree_off, tree_off + 4096)
+        elif cls == 'leaves': m = tree_off + rng.randrange(1, 4096 * 3) + rng.randrange(0, n * (57 + K) + 1)
+        elif cls == 'lastbyte': m = -1
+        else: m = rng.randrange(0, total_guess)
+        L.append('idx cut 0 %s' % (m if m >= 0 else 'last'))
+    elif kind == 'field':
+        pos, val = rng.choice([(0, 'ff'), (72, '0c'), (72, '0f'), (72, '0b'), (73, (K + 1).to_bytes(2, 'little').hex()),
+                               (8, (n + 1).to_bytes(8, 'little').hex()), (8, (n + 1000).to_bytes(8, 'little').hex()),
+                               (16, (58 + K).to_bytes(8, 'little').hex()), (75, (bsize + 1).to_bytes(8, 'little').hex()),
+                               (tree_meta, (10**6).to_bytes(8, 'little').hex()), (tree_meta + 8, (10**6).to_bytes(8, 'little').hex())])
+        L.append('idx poke 0 %d %s' % (pos, val))
+    open_bs = bsize if kind != 'bsize' else bsize + rng.choice([-1, 1, 100])
+    L.append('idx open 0 none %d' % open_bs)
+    return '\n'.join(L) + '\n'
+
+
 def gen(tier, rng):
     n = 240 if tier == 'quick' else 5000
-    return [('restart%05d' % i, gen_script(rng)) for i in range(n)]
+    return [('restart%05d' % i, gen_script(rng)) for i in range(n)] + [('idxopen%05d' % i, gen_index_open_script(rng)) for i in range(n // 2)]
 
 
 def parse_counts(o):
@@ -143,6 +185,10 @@ classify = C.default_classify
 
 
 def signature(lines, io):
+    if len(lines) > 1 and lines[1].startswith('idx new'):
+        d = next((l for l in lines if l.startswith('idx cut') or l.startswith('idx poke')), 'none')
+        dt = d.split()
+        return hash((lines[0], len(lines) // 8, dt[1] if len(dt) > 1 else 'none', dt[3] if d.startswith('idx poke') else '', io[-1] if io else ''))
     dmg = tuple(l.split()[0] + (l.split()[1] if len(l.split()) > 1 else '') for l in lines if l.split()[0] in ('rmindex', 'trunc', 'patch', 'drop', 'close'))
     tail = tuple(o.split()[1] if len(o.split()) > 1 else '' for o in io[-4:])
     return hash((lines[0], dmg, tail))
